@@ -3,16 +3,18 @@
 
   Props/DenseAll.lean relates the protocol to a coverage-aware dense interpreter on worlds made
   of maps only.  Here the dense world also has files — a healsparse FITS file is the `DenseMapC`
-  snapshot that was written plus the user metadata stored with it; a HEALPix-format file is its
-  column(s); a MOC file is its UNIQ column — and the per-name user metadata of the driver:
+  snapshot that was written plus the user metadata stored with it; a HEALPix-format file is the
+  snapshot it was written from (`hpxwrite`) or its column (`hpximplicit`); a MOC file is its UNIQ
+  column — and the per-name user metadata of the driver:
 
       DenseWorldIO = maps + files + hpfiles + mocs + metas            (`ApiDenseIO.DenseWorldIO`)
 
   HEADLINE `reachable_dense_io`: after ANY history of covered lines (`lineOkIO`) the world of the
   protocol and the dense world agree (`RelIO`): the same maps (headers, every pixel, the coverage
   mask — `RelC`), the same file names, every file of the world being the written form of a typed
-  map object that agrees with the dense snapshot (`FileCorr`), the same HEALPix files, MOC files
-  and user metadata; and every line is answered alike (`reachable_dense_io_answers`,
+  map object that agrees with the dense snapshot (`FileCorr`), every HEALPix-format file being
+  the column given or the explicit file written from a map that agrees with the dense snapshot
+  (`HpCorr`), the same MOC files and user metadata; and every line is answered alike (`reachable_dense_io_answers`,
   `reachable_dense_io_all_answers`).  No side condition on the history.
 
   COVERED (`lineOkIO`):
@@ -29,8 +31,10 @@
     * HEALPix interchange: `fromhp` (NEST, or RING with an `r2n=` table); `genhp` without `key=`
       (any `ord=` / `red=`: degrade first) — NEST (`nest=1`), or RING through ANY `n2r=` table
       (permutation or not) that is NO LONGER than the output map, the output order `ord=` being
-      then given on the line; `hpximplicit`, `hpxread` (of ANY stored HEALPix-format file,
-      explicit or implicit, NESTED or RING);
+      then given on the line; `hpxwrite` (explicit file: refused for record maps and wide masks),
+      `hpximplicit`, `hpxread` of either (written file: IndexError for an empty map, re-housing at
+      the requested coverage order, a bit-packed map coming back as a plain boolean map; implicit
+      file: NESTED or RING);
     * MOC files: `moc` (the UNIQ column is a function of the dense valid set), `mocread`.
 
   NOT COVERED (`lineOkIO` is false; a history containing such a line is outside the theorem from
@@ -40,9 +44,6 @@
       function of the dense values — `C10World`'s `genhpLong` artefact), or without `ord=` (the
       length bound must be decidable on the line); `genhp … key=` (single-field export of a
       record map goes through `get_single`);
-    * `hpxwrite`: the explicit file lists the valid pixels in STORAGE order (block allocation
-      order), which the dense view does not show — it would need a relation up to permutation of
-      the (pixel, value) rows; `hpxread` itself is covered for every stored file;
     * `dor` (degrade-on-read) and `cat` (file concatenation): not attempted;
     * `fitsraw` (raw COV / SPARSE arrays of a file), `state`, `dump` (raw storage of a map);
     * record views and sub-maps (`single`, `scov`), `geom`, `interp`, `rand`, the `p.*` lines;
@@ -122,11 +123,26 @@ theorem reachable_dense_io_file (lines : List String) (h : ∀ l ∈ lines, line
     obtain ⟨m, hc, ht, rfl⟩ := hm
     exact ⟨df, rfl, rfl, hc.covMask_eq, fun px => apiRead_corrC hc ht df.mdata px⟩
 
-/-- the other tables are literally the same -/
+/-- the HEALPix-format files: a stored file is stored on the dense side too — the same columns
+    (`hpximplicit`), or the snapshot of a map whose explicit file it is (`hpxwrite`: the rows of
+    the file are in storage order, which no dense view shows) — and WHATEVER `hpxread` is asked,
+    the reader's outcome on the file is the dense read -/
+theorem reachable_dense_io_hpfile (lines : List String) (h : ∀ l ∈ lines, lineOkIO l = true)
+    {F : String} {f : HpFile} (hf : ApiDenseIO.lookup (runLines lines).hpfiles F = some f) :
+    ∃ df, ApiDenseIO.lookup (drunIO lines).hpfiles F = some df ∧ HpCorr f df ∧
+      ∀ co r2n, OutRelM (apiReadHealpix f co r2n) (dReadHpD df co r2n) := by
+  have hm := (rel_runLinesIO lines h).hpfiles F
+  rw [hf] at hm
+  cases hd : ApiDenseIO.lookup (drunIO lines).hpfiles F with
+  | none => rw [hd] at hm; exact hm.elim
+  | some df =>
+    rw [hd] at hm
+    exact ⟨df, rfl, hm, fun co r2n => readHpD_corrC hm co r2n⟩
+
+/-- the MOC files and the user metadata are literally the same -/
 theorem reachable_dense_io_tables (lines : List String) (h : ∀ l ∈ lines, lineOkIO l = true) :
-    (runLines lines).hpfiles = (drunIO lines).hpfiles ∧ (runLines lines).mocs = (drunIO lines).mocs ∧
-      (runLines lines).metas = (drunIO lines).metas :=
-  ⟨(rel_runLinesIO lines h).hpfiles, (rel_runLinesIO lines h).mocs, (rel_runLinesIO lines h).metas⟩
+    (runLines lines).mocs = (drunIO lines).mocs ∧ (runLines lines).metas = (drunIO lines).metas :=
+  ⟨(rel_runLinesIO lines h).mocs, (rel_runLinesIO lines h).metas⟩
 
 /-- **the interpreter extends the one of Props/DenseAll.lean**: every line of the five families is
     covered, and on such a line the map part and the answer are those of
@@ -334,6 +350,38 @@ theorem dense_genhp_ring {d : DenseMapC} {l : List Val} {red : String} {n2r r2n 
       · rw [if_pos hc, if_pos (hiff.1 hc)]
       · rw [if_neg hc, if_neg (fun h' => hc (hiff.2 h'))]
 
+/-- **`hpxwrite` then `hpxread covord=co`, the map read back**: requested coverage order, the
+    snapshot's sparse order and sentinel, a PLAIN kind (`bool` for a bit-packed map); the
+    snapshot's value at every valid pixel, the sentinel elsewhere; covered = holds a valid pixel -/
+theorem dense_hpx_read_written {d d' : DenseMapC} {co : Nat} (h : dReadWritten d co = .ok d') :
+    ∃ dt, ApiHealpixRT.hpxDT d.toDense.kind = some dt ∧
+    d'.toDense.covord = co ∧ d'.toDense.spord = d.toDense.spord ∧ d'.toDense.kind = .plain dt ∧
+    d'.toDense.sent = d.toDense.sent ∧ ApiDenseScalar.dValidSet d.toDense ≠ [] ∧
+    (∀ p, d'.toDense.f p =
+      if d.toDense.kind.valid d.toDense.sent (d.toDense.f p) = true then d.toDense.f p
+      else d.toDense.sent) ∧
+    (∀ k, d'.cov k = true ↔ ∃ p ∈ ApiDenseScalar.dValidSet d.toDense,
+      p >>> (cfgOf co d.toDense.spord).shift = k) := by
+  unfold dReadWritten at h
+  split at h
+  · cases h
+  · rename_i dt hdt
+    split at h
+    · cases h
+    · rename_i hne
+      split at h
+      · cases h
+      · split at h
+        · cases h
+        · cases h
+          refine ⟨dt, hdt, rfl, rfl, rfl, rfl, hne, fun p => rfl, fun k => ?_⟩
+          show ((ApiDenseScalar.dValidSet d.toDense).any
+            fun p => p >>> (cfgOf co d.toDense.spord).shift == k) = true ↔ _
+          rw [List.any_eq_true]
+          constructor
+          · rintro ⟨p, hp, hk⟩; exact ⟨p, hp, by simpa using hk⟩
+          · rintro ⟨p, hp, hk⟩; exact ⟨p, hp, by simpa using hk⟩
+
 /-- **`moc`**: the UNIQ column stored and printed is a function of the dense valid set (and the
     two orders) alone -/
 theorem dense_moc (D : DenseWorldIO) (a : Args) {n : String} {rest : List String} {d : DenseMapC}
@@ -352,7 +400,7 @@ theorem dense_moc (D : DenseWorldIO) (a : Args) {n : String} {rest : List String
 /-! ### (3) what is NOT covered, on examples -/
 
 /-! `genhp` through a RING table longer than the output map (13 entries for 12 pixels) or without
-    `ord=`, `genhp` with a key, `hpxwrite`, `dor`, `cat` and the raw dumps are outside `lineOkIO`;
+    `ord=`, `genhp` with a key, `dor`, `cat` and the raw dumps are outside `lineOkIO`;
     `nvalid … path=str` stays excluded -/
 #guard lineOkIO "genhp a ord=0 nest=0 n2r=0,1,2,3,4,5,6,7,8,9,10,11"
 #guard lineOkIO "genhp a ord=0 nest=0 n2r=3,3,3"
@@ -360,7 +408,7 @@ theorem dense_moc (D : DenseWorldIO) (a : Args) {n : String} {rest : List String
 #guard !lineOkIO "genhp a ord=0 nest=0 n2r=0,1,2,3,4,5,6,7,8,9,10,11,12"
 #guard !lineOkIO "genhp a nest=0 n2r=0,1,2,3,4,5,6,7,8,9,10,11"
 #guard !lineOkIO "genhp rc key=1"
-#guard !lineOkIO "hpxwrite a f=H"
+#guard lineOkIO "hpxwrite a f=H"
 #guard !lineOkIO "dor f=F ord=1 red=mean r=x"
 #guard !lineOkIO "cat files=F,G f=C"
 #guard !lineOkIO "fitsraw f=F cov=0 sp=0"
@@ -385,6 +433,7 @@ def exIO : List String := [
   "upd f pix=0,1,22 vals=1^1,3^2,-5",
   "cfg p kind=packed covord=0 spord=2",
   "upd p pix=20,21,45 val=T",
+  "cfg e0 kind=plain dtype=f4 covord=0 spord=1 covpix=2",
   "cfg wm kind=wide maxbits=12 covord=0 spord=1",
   "bits wm mode=set pix=5,30 bits=1,9",
   "cfg rc kind=rec fields=i4,f8 primary=0 covord=0 spord=1",
@@ -399,12 +448,12 @@ def exIO : List String := [
   "vpsc a k=1",
   "vpsc a k=12",
   "vpsc a",
-  "meta a k=author v=me",
-  "meta a k=run v=7",
-  "meta a k=author v=you",
-  "getmeta a k=author",
-  "getmeta a k=none",
-  "getmeta f k=author",
+  "meta a k=AUTHOR v=me",
+  "meta a k=RUN v=7",
+  "meta a k=AUTHOR v=you",
+  "getmeta a k=AUTHOR",
+  "getmeta a k=NONE",
+  "getmeta f k=AUTHOR",
   -- write every kind; read back fully
   "write a f=A",
   "write f f=F",
@@ -426,9 +475,9 @@ def exIO : List String := [
   "vals p2",
   "get w2 pix=5,30,6",
   "get r2 pix=5,6",
-  "getmeta a2 k=author",
-  "getmeta a2 k=run",
-  "getmeta f2 k=author",
+  "getmeta a2 k=AUTHOR",
+  "getmeta a2 k=RUN",
+  "getmeta f2 k=AUTHOR",
   -- the original changes, the file does not
   "upd a pix=47 val=9",
   "read f=A r=a3",
@@ -461,18 +510,18 @@ def exIO : List String := [
   "read f=A r=s2",
   "mop maps=s,s2 name=sum_intersection r=t",
   "get t pix=3,20,21,40,47",
-  "getmeta s2 k=author",
+  "getmeta s2 k=AUTHOR",
   "deg s2 ord=0 red=sum r=sd",
   "vals sd",
   -- metadata through pack
   "cfg bo kind=plain dtype=b1 covord=0 spord=2",
   "upd bo pix=5 val=T",
-  "meta bo k=mask v=yes",
+  "meta bo k=MASK v=yes",
   "pack bo r=pq",
-  "getmeta pq k=mask",
-  "meta p k=mask v=yes",
+  "getmeta pq k=MASK",
+  "meta p k=MASK v=yes",
   "pack p r=pp",
-  "getmeta pp k=mask",
+  "getmeta pp k=MASK",
   -- HEALPix export / import
   "genhp a",
   "genhp a ord=0 red=sum",
@@ -481,11 +530,12 @@ def exIO : List String := [
   "genhp p",
   "genhp wm",
   "genhp rc",
-  "genhp a ord=0 red=sum nest=0 n2r=1,0,2,3,4,6,5,7,8,9,11,10",   -- RING export, a permutation
+  "genhp a ord=1 nest=0 n2r=13,5,4,0,15,7,6,1,17,9,8,2,19,11,10,3,28,20,27,12,30,22,21,14,32,24,23,16,34,26,25,18,44,37,36,29,45,39,38,31,46,41,40,33,47,43,42,35",   -- RING export, hpgeom's nest_to_ring at nside 2
+  "genhp a ord=0 red=sum nest=0 n2r=1,0,2,3,4,6,5,7,8,9,11,10",   -- … any permutation
   "genhp a ord=0 red=sum nest=0 n2r=5,5,5",                       -- … any shorter table
   "genhp a ord=1 nest=0 n2r=47,46,45",
   "genhp a ord=0 nest=0 n2r=x",
-  "fromhp r=h dtype=i8 covord=0 spord=0 sentinel=-1 vals=1,2,-1637499999999999923489519697920,4,5,6,7,8,9,10,11,12",
+  "fromhp r=h dtype=f4 covord=0 spord=0 sentinel=-1 vals=1,2,-1637499999999999923489519697920,4,5,6,7,8,9,10,11,12",
   "vals h",
   "covmask h",
   "fromhp r=h dtype=i8 covord=0 spord=0 vals=1,2,3,4,5,6,7,8,9,10,11,12",
@@ -506,6 +556,23 @@ def exIO : List String := [
   "hpxread f=HI r=hi covord=0",
   "hpxread f=H r=hh covord=1",
   "hpxread f=ZZ r=hh covord=0",
+  -- explicit files: written from maps (rows in storage order), read back at another coverage order
+  "hpxwrite a f=XA",
+  "hpxwrite p f=XP",
+  "hpxwrite e0 f=XE",
+  "hpxwrite wm f=XW",
+  "hpxwrite rc f=XR",
+  "hpxread f=XA r=xa covord=1",
+  "info xa",
+  "valid xa",
+  "covmask xa",
+  "mop maps=a,xa name=sum_intersection r=xs",
+  "hpxread f=XA r=xa covord=2",
+  "hpxread f=XP r=xp covord=0",
+  "info xp",
+  "valid xp",
+  "hpxread f=XE r=xe covord=0",
+  "hpxread f=XW r=xw covord=0",
   -- MOC round trip
   "moc a f=M",
   "moc p f=MP",
@@ -529,7 +596,7 @@ def exIO : List String := [
   -- housekeeping
   "drop a2",
   "vals a2",
-  "getmeta a2 k=author",
+  "getmeta a2 k=AUTHOR",
   "read f=A r=a2",
   "nvalid a2",
   "drop",
@@ -537,7 +604,7 @@ def exIO : List String := [
   "vals a",
   "read f=A r=x",
   "cfg a kind=plain dtype=i8 covord=0 spord=1",
-  "getmeta a k=author"]
+  "getmeta a k=AUTHOR"]
 
 #guard exIO.all lineOkIO
 #guard answers exIO == danswersIO exIO
@@ -545,72 +612,81 @@ def exIO : List String := [
 /-! … and the answers are the expected ones -/
 
 -- `info` (every kind), `vpsc` (covered / empty / out of range / malformed)
-#guard ((answers exIO).drop 10).take 10 ==
+#guard ((answers exIO).drop 11).take 10 ==
   ["kind=plain:i8 covord=0 spord=1 sentinel=-9223372036854775808", "kind=plain:f8 covord=0 spord=1 sentinel=-1637499999999999923489519697920", "kind=packed covord=0 spord=2 sentinel=F", "kind=wide:2 covord=0 spord=1 sentinel=0", "kind=rec:i4,f8:0 covord=0 spord=1 sentinel=-2147483648", "20,21", "3", "_", "err IndexError", "bad-op:k"]
 -- user metadata: the last `meta` wins; unset keys
-#guard ((answers exIO).drop 23).take 3 ==
+#guard ((answers exIO).drop 24).take 3 ==
   ["you", "none", "none"]
 -- `covread`: the mask of the snapshot (`f` has the allocated, empty coverage pixel 7)
-#guard ((answers exIO).drop 31).take 3 ==
+#guard ((answers exIO).drop 32).take 3 ==
   ["100001000010", "100001010000", "bad-op:no-such-map"]
 -- wide and record maps come back cell by cell; the metadata travel with the file
-#guard ((answers exIO).drop 44).take 5 ==
+#guard ((answers exIO).drop 45).take 5 ==
   ["b2.2,b2.2,b0.0", "r3;2,r-2147483648;-1637499999999999923489519697920", "you", "7", "none"]
 -- the file is a snapshot: a later `upd` of the original does not show
-#guard ((answers exIO).drop 51).take 3 ==
+#guard ((answers exIO).drop 52).take 3 ==
   ["-9223372036854775808,4", "100001000010", "100001000011"]
 -- partial reads: restriction / duplicates refused / nothing covered refused / out-of-range ignored / malformed
-#guard ((answers exIO).drop 56).take 6 ==
+#guard ((answers exIO).drop 57).take 6 ==
   ["000001000010", "err RuntimeError", "err RuntimeError", "ok", "100000000000", "bad-op:pixels"]
 -- a partial read of an allocated, empty coverage pixel: an empty map with that pixel allocated
-#guard ((answers exIO).drop 64).take 2 ==
+#guard ((answers exIO).drop 65).take 2 ==
   ["000000010000", "0"]
 -- partial read of a wide mask: pixel 30 (coverage pixel 7) is not read
-#guard ((answers exIO).drop 67).take 1 ==
+#guard ((answers exIO).drop 68).take 1 ==
   ["10"]
 -- the read-back map (scaled) combined with the original
-#guard ((answers exIO).drop 73).take 1 ==
+#guard ((answers exIO).drop 74).take 1 ==
   ["11,22,33,44,9"]
 -- … and once more through a file
-#guard ((answers exIO).drop 77).take 2 ==
+#guard ((answers exIO).drop 78).take 2 ==
   ["22,44,66,88,18", "none"]
 -- metadata through `pack`: kept from a boolean source …
-#guard ((answers exIO).drop 85).take 1 ==
+#guard ((answers exIO).drop 86).take 1 ==
   ["yes"]
 -- … dropped from a bit-packed one
-#guard ((answers exIO).drop 88).take 1 ==
+#guard ((answers exIO).drop 89).take 1 ==
   ["none"]
 -- `genhp`: a finer order is refused
-#guard ((answers exIO).drop 91).take 1 ==
+#guard ((answers exIO).drop 92).take 1 ==
   ["err ValueError"]
 -- `genhp`: wide masks and record maps (no key) are refused
-#guard ((answers exIO).drop 94).take 2 ==
+#guard ((answers exIO).drop 95).take 2 ==
   ["err NotImplementedError", "err ValueError"]
--- RING export through a permutation table = the NEST export permuted
+-- RING export through a permutation table = the NEST export permuted (hpgeom's table at nside 2,
+-- an arbitrary permutation at nside 1)
 #guard (let nest := ((answers exIO)[90]?.getD "").splitOn ","
-        let ring := ((answers exIO)[96]?.getD "").splitOn ","
+        let ring := ((answers exIO)[97]?.getD "").splitOn ","
+        let t := [13,5,4,0,15,7,6,1,17,9,8,2,19,11,10,3,28,20,27,12,30,22,21,14,32,24,23,16,34,26,25,18,
+                  44,37,36,29,45,39,38,31,46,41,40,33,47,43,42,35]
+        nest.length == 48 && (List.range 48).all fun p => ring[t[p]?.getD 0]? == nest[p]?)
+#guard (let nest := ((answers exIO)[91]?.getD "").splitOn ","
+        let ring := ((answers exIO)[98]?.getD "").splitOn ","
         let t := [1,0,2,3,4,6,5,7,8,9,11,10]
         nest.length == 12 && (List.range 12).all fun p => ring[t[p]?.getD 0]? == nest[p]?)
 -- a malformed table
-#guard ((answers exIO).drop 99).take 1 ==
+#guard ((answers exIO).drop 101).take 1 ==
   ["bad-op:n2r"]
 -- `fromhp`: the entry equal to UNSEEN is not selected and reads the map's own sentinel; integer array without sentinel, wrong length
-#guard ((answers exIO).drop 101).take 4 ==
+#guard ((answers exIO).drop 103).take 4 ==
   ["1,2,-1,4,5,6,7,8,9,10,11,12", "110111111111", "err ValueError", "err ValueError"]
 -- `fromhp` of a RING array
-#guard ((answers exIO).drop 106).take 2 ==
+#guard ((answers exIO).drop 108).take 2 ==
   ["2,1,-1637499999999999923489519697920,4,5,6,7,8,9,10,11,12", "110111111111"]
 -- implicit HEALPix files: NESTED, RING (with / without table), integer column, coverage order too fine, no such file
-#guard ((answers exIO).drop 113).take 8 ==
+#guard ((answers exIO).drop 115).take 8 ==
   ["ok", "1,2,-1637499999999999923489519697920,4,5,6,7,8,9,10,11,12", "ok", "2,1,-1637499999999999923489519697920,4,5,6,7,8,9,10,11,12", "err bad-op:r2n", "err ValueError", "err ValueError", "bad-op:no-such-map"]
+-- explicit HEALPix files: wide masks / record maps refused; read back at a finer coverage order (re-housed); coverage order too fine; a bit-packed map comes back plain boolean; the file of an empty map cannot be read; no such file
+#guard ((answers exIO).drop 123).take 16 ==
+  ["ok", "ok", "ok", "err TypeError", "err NotImplementedError", "ok", "kind=plain:i8 covord=1 spord=1 sentinel=-9223372036854775808", "3,20,21,40,47", "000100000000000000001100000000000000000010000001", "err RuntimeError", "err ValueError", "ok", "kind=plain:b1 covord=0 spord=2 sentinel=F", "20,21,45", "err IndexError", "bad-op:no-such-map"]
 -- MOC: the UNIQ columns; an empty map is refused; the map read back has the valid set of the map written
-#guard ((answers exIO).drop 121).take 12 ==
+#guard ((answers exIO).drop 139).take 12 ==
   ["19,36,37,56,63", "84,85,109", "ok", "err ValueError", "ok", "kind=plain:b1 covord=0 spord=1 sentinel=F", "3,20,21,40,47", "3,20,21,40,47", "ok", "20,21,45", "err ValueError", "bad-op:no-such-map"]
 -- the MOC read at a finer coverage order; boolean operations on the maps read
-#guard ((answers exIO).drop 134).take 6 ==
+#guard ((answers exIO).drop 152).take 6 ==
   ["000100000000000000001100000000000000000010000001", "err NotImplementedError", "ok", "0,1,2,3,20,21,22,23,40,41,42,43,44,45,46,47", "ok", "0"]
 -- housekeeping
-#guard ((answers exIO).drop 140).take 11 ==
+#guard ((answers exIO).drop 158).take 11 ==
   ["ok", "bad-op:no-such-map", "bad-op:no-such-map", "ok", "5", "bad-op:drop", "ok", "bad-op:no-such-map", "bad-op:no-such-map", "ok", "none"]
 
 end Dense
